@@ -14,6 +14,16 @@ Case kinds
              list / tuple / ndarray), and the functions one at a time on arbitrary triangular arrays.
              Oracle: U is upper triangular with positive diagonal and U'U equals the principal submatrix
              A[P][:, P] (exact integer arithmetic on the float output, explicit tolerance).
+  round 4 (design_notes/C05.md "Round 4 hardening"):
+  solver / inversion `tie` family   permutation-invariant systems whose passive variables reach zero at exactly the
+             same step length (ratio ties of fix_constraint_cholesky), classified by an exact trace of the algorithm
+  history    short typed histories on REUSED objects (the same caller-owned arrays / SettingsInversion / dataset /
+             linear objects over several calls, near-duplicate twins, fault-then-reuse, two worlds in both orders,
+             decoy reads first, permuted read order); every step is judged as the single call it is against a
+             fresh object in that state
+  big        large systems described by a seed (planted optimum with strict complementarity, or noise-dominated
+             data): NO model comparison, a vectorised numpy oracle judges alone; a small always-on sample plus the
+             constant-directed `generate_large` (sizes c-1, c, c+1, c+c//3+1, 2c+1 in every size dimension)
 The model (Lean, exact rationals) receives the same system (for `inversion`: the F+H and D the
 implementation built — their construction is C04's subject) and returns the exact optimum; solutions are
 compared at 1e-7 of the solution scale (unique optimum of a PD problem => stable), mapped data at 1e-9.
@@ -188,9 +198,28 @@ def rel_tol(A):
     return max(REL_SOL, F(8 * c * 2.0 ** -53))
 
 
+def nonfinite_in(vals):
+    """index of the first entry of a list of "p/q" strings (or nested lists of them) that is nan / inf, else None.
+    (a non-finite entry in a returned solution / factor is an observation the oracle must judge, not an error of
+    the harness: round 4, C05-r4m2 returned NaN vectors)"""
+    for i, v in enumerate(vals):
+        if isinstance(v, (list, tuple)):
+            k = nonfinite_in(v)
+            if k is not None:
+                return (i, k)
+        elif isinstance(v, str) and v in ("nan", "inf", "-inf"):
+            return i
+        elif isinstance(v, float) and (v != v or v in (float("inf"), float("-inf"))):
+            return i
+    return None
+
+
 def diff_vec(cmp: Cmp, impl, model, tol, path):
     if len(impl) != len(model):
         return f"{path}: length impl={len(impl)} model={len(model)}"
+    k = nonfinite_in(impl)
+    if k is not None:
+        return f"{path}[{k}]: impl={impl[k]!r} (not finite) model={float(F(model[k]))!r}"
     for i, (a, m) in enumerate(zip(impl, model)):
         a, m = F(a), F(m)
         if a == m:
@@ -337,6 +366,238 @@ def np_delete_positions(P, dels):
     ds = set(int(d) for d in dels)
     return [v for k, v in enumerate(P) if k not in ds]
 
+
+# ------------------------------------------------------------------------------------------------
+# round 4: exact active-set trace (tie detection), swap-symmetric systems, large oracle-only systems
+# ------------------------------------------------------------------------------------------------
+def lh_trace(A, b, P0=None, max_iter=400):
+    """The active-set iteration of fnnls_cholesky in EXACT arithmetic (tolerance 0), written from the algorithm
+    (Bro & de Jong) and independent of the code under test and of the Lean model: same entering rule (largest w
+    among the active indices, lowest index first), same warm-start acceptance (guess kept iff its passive-set
+    solution is positive everywhere), remove-all leaving rule.  Used ONLY to classify inputs: it counts the
+    steps in which two or more passive variables reach zero at exactly the same step length (ratio ties) and
+    the steps in which the whole passive set leaves.  returns (x | None, ties, iterations)"""
+    n = len(b)
+    x = [F(0)] * n
+    P = []
+    ties = 0
+    if P0:
+        P0 = list(dict.fromkeys(int(i) for i in P0))
+        sub = exact_solve([[A[i][j] for j in P0] for i in P0], [b[i] for i in P0])
+        if sub is not None and all(v > 0 for v in sub):
+            P = P0
+            for k, i in enumerate(P):
+                x[i] = sub[k]
+    for it in range(max_iter):
+        w = [bi - v for bi, v in zip(b, matvec(A, x))]
+        if not any(w[i] > 0 for i in range(n) if i not in P):
+            return x, ties, it
+        wm = [F(0) if i in P else w[i] for i in range(n)]
+        P = P + [max(range(n), key=lambda i: (wm[i], -i))]
+        while P:
+            sub = exact_solve([[A[i][j] for j in P] for i in P], [b[i] for i in P])
+            if sub is None:
+                return None, ties, it
+            z = [F(0)] * n
+            for k, i in enumerate(P):
+                z[i] = sub[k]
+            if all(z[i] > 0 for i in P):
+                x = z
+                break
+            alpha = min((x[i] / (x[i] - z[i]) if x[i] != z[i] else F(0)) for i in P if z[i] <= 0)
+            x = [xi + alpha * (zi - xi) for xi, zi in zip(x, z)]
+            if sum(1 for i in P if x[i] <= 0) >= 2:
+                ties += 1
+            P = [i for i in P if x[i] > 0]
+            x = [x[i] if i in P else F(0) for i in range(n)]
+    return None, ties, max_iter
+
+
+def sym_design(rng, n):
+    """(M, x, v, orbits): an integer design (rows = data pixels, columns = parameters), data x and ridge v such that
+    A = M'M + v*I and b = M'x are invariant under EVERY permutation inside each orbit of parameters (mirror-image
+    linear objects / source pixels with identical data and noise): rows constant on the orbits, plus, per orbit,
+    the full set of images of one row (value a at one position of the orbit, b at the others; same datum).  On such
+    a system the passive values of an orbit are EQUAL, so a variable entering later drives them to zero at exactly
+    the same step length: the ratio tie of fix_constraint_cholesky."""
+    kinds = ["pair", "pair", "pair"] + (["pair2", "triple"] if n >= 4 else []) + (["pair_triple"] if n >= 6 else [])
+    sizes = {"pair": [2], "pair2": [2, 2], "triple": [3], "pair_triple": [2, 3]}[rng.choice(kinds)]
+    idx = rng.sample(range(n), n)
+    orbits, pos = [], 0
+    for sz in sizes:
+        orbits.append(sorted(idx[pos:pos + sz]))
+        pos += sz
+    rep = list(range(n))
+    for o in orbits:
+        for i in o:
+            rep[i] = o[0]
+    M, x = [], []
+    for _ in range(rng.randint(1, n + 1)):
+        r = [rng.randint(-2, 2) for _ in range(n)]
+        M.append([r[rep[i]] for i in range(n)])
+        x.append(rng.randint(-3, 3))
+    for o in orbits:
+        if rng.random() < 0.8:
+            r = [rng.randint(-2, 2) for _ in range(n)]
+            base = [r[rep[i]] for i in range(n)]
+            a = rng.choice([v for v in (-2, -1, 0, 1, 2, 3) if v != base[o[0]]])
+            datum = rng.randint(-3, 3)
+            for i in o:
+                row = base[:]
+                row[i] = a
+                M.append(row)
+                x.append(datum)
+    return M, x, rng.choice([1, 1, 2]), orbits
+
+
+def design_system(M, x, v):
+    n = len(M[0])
+    A = [[F(sum(r[i] * r[j] for r in M) + (v if i == j else 0)) for j in range(n)] for i in range(n)]
+    b = [F(sum(r[i] * xv for r, xv in zip(M, x))) for i in range(n)]
+    return A, b
+
+
+def cold_tie_core(rng):
+    """(M, x, v) | None: a 3-column integer design (columns 0 and 1 mirror images, column 2 a weak, strongly
+    correlated third parameter) for which the COLD-started active-set loop puts the pair into the passive set first
+    and the third parameter then drives both out at the same step length.  Candidates are pre-filtered with the
+    closed form of that path for A = [[a,c,e],[c,a,e],[e,e,f]], b = [p,p,r] (pair first: p >= r and
+    p(a-c+e) >= a r; third enters: r(a+c) > 2ep; pair driven out: pf <= er) and confirmed by the exact trace."""
+    M, x = [], []
+    m = rng.randint(3, 9)
+    while len(M) < m:
+        if rng.random() < 0.5 and len(M) + 2 <= m:
+            r0, r1, rk, d = rng.randint(-2, 3), rng.randint(-2, 3), rng.randint(-1, 1), rng.randint(-3, 3)
+            M += [[r0, r1, rk], [r1, r0, rk]]
+            x += [d, d]
+        else:
+            t, tk = rng.randint(-2, 3), rng.randint(-1, 1)
+            M.append([t, t, tk])
+            x.append(rng.randint(-3, 3))
+    v = rng.choice([F(1, 4), F(1, 2), F(1)])
+    A, b = design_system(M, x, v)
+    a, c, e, f, p, r = A[0][0], A[0][1], A[0][2], A[2][2], b[0], b[2]
+    if not (p > 0 and p >= r and p * (a - c + e) >= a * r and r * (a + c) > 2 * e * p and p * f <= e * r):
+        return None
+    return (M, x, v) if lh_trace(A, b, None)[1] else None
+
+
+def sym_system(rng, n):
+    """(A, b, orbits) of a permutation-invariant integer design"""
+    M, x, v, orbits = sym_design(rng, n)
+    A, b = design_system(M, x, v)
+    return A, b, orbits
+
+
+BIG_DESIGNS = ["nonneg", "signed", "banded"]
+
+
+def big_system(seed, n, k, design, rhs="planted", scale=(0, 0)):
+    """Large integer-valued SPD system, reproducible from its descriptor (cases stay small; replays regenerate).
+    rhs = "planted": the optimum is KNOWN by construction — s* >= 1/8 on a support of size k, dual g* >= 1/4 off
+    the support, b = A s* - g*: s* satisfies the KKT conditions with strict complementarity, so it is the unique
+    minimiser and the cold-started active-set loop needs >= k outer iterations.  rhs = "noise": b = Z'x for
+    noise-dominated data x (many variables enter and leave again; optimum unknown, judged by the KKT certificate).
+    returns (A, b, s* | None) as float64 arrays holding exact integers / dyadics."""
+    r = np.random.RandomState(seed % (2**32))
+    m = n + 3 + int(r.randint(0, 8))
+    if design == "nonneg":  # non-negative sparse response, like the mapping matrix of light profiles
+        Z = (r.randint(1, 4, size=(m, n)) * (r.rand(m, n) < min(0.5, 12.0 / n + 0.05))).astype(float)
+    elif design == "banded":  # short-range coupling: the entering order follows the data, long insert chains
+        Z = np.zeros((m, n))
+        for j in range(n):
+            for t in range(3):
+                Z[(j + t * 7) % m, j] = r.randint(-2, 4)
+    else:
+        Z = r.randint(-3, 4, size=(m, n)).astype(float)
+    A = Z.T @ Z + np.eye(n) * float(r.choice([1, 2]))
+    sA, sb = 2.0 ** scale[0], 2.0 ** scale[1]
+    if rhs == "planted":
+        perm = r.permutation(n)
+        s = np.zeros(n)
+        s[perm[:k]] = r.randint(1, 33, size=k) / 8.0
+        g = np.zeros(n)
+        g[perm[k:]] = r.randint(1, 33, size=n - k) / 4.0
+        b = A @ s - g
+        return A * sA, b * sb, s * (sb / sA)
+    s0 = r.randint(0, 9, size=n) / 4.0 * (r.rand(n) < 0.7)
+    x = Z @ s0 + r.randint(-20, 21, size=m) / 4.0 * 2.0
+    return A * sA, (Z.T @ x) * sb, None
+
+
+def kkt_check_np(A, b, d, allow_tol, ref=None):
+    """the KKT certificate for LARGE systems, vectorised: float64 evaluation with an explicit bound on the
+    evaluation error ((n+2) ulp of |A||d| + |b| per row) added to the oracle's slack, so a correct solution can
+    never fail; with `ref` (the planted unique minimiser) also |d - ref| <= 1e-7 scale."""
+    A, b, d = np.asarray(A, dtype=float), np.asarray(b, dtype=float), np.asarray(d, dtype=float)
+    n = b.shape[0]
+    if d.shape != (n,):
+        return False, f"solution has shape {d.shape} for a system of size {n}"
+    if not np.all(np.isfinite(d)):
+        return False, f"s[{int(np.where(~np.isfinite(d))[0][0])}] is not finite"
+    if n == 0:
+        return True, ""
+    if d.min() < 0:
+        i = int(np.argmin(d))
+        return False, f"s[{i}] = {float(d[i])!r} < 0"
+    g = A @ d - b
+    ev = (n + 2) * 2.0 ** -52 * (np.abs(A) @ np.abs(d) + np.abs(b))
+    slack = float(KKT_SLACK) * (np.abs(A).max() * np.abs(d).sum() + np.abs(b).max()) + float(allow_tol) + ev
+    pos = d > 0
+    bad = np.where(pos & (np.abs(g) > slack))[0]
+    if bad.size:
+        i = int(bad[np.argmax(np.abs(g[bad]))])
+        return False, (f"gradient on positive entry s[{i}]={float(d[i])!r} is {float(g[i])!r} "
+                       f"(slack {float(slack[i]):.3e}; {bad.size} of {int(pos.sum())} positive entries fail)")
+    bad = np.where(~pos & (g < -slack))[0]
+    if bad.size:
+        i = int(bad[np.argmin(g[bad])])
+        return False, f"gradient on zero entry {i} is {float(g[i])!r} < 0 (slack {float(slack[i]):.3e})"
+    if ref is not None:
+        sc = max(float(np.abs(ref).max()), float(np.abs(b).max() / np.abs(A).max()), 2.0 ** -40)
+        e = np.abs(d - ref)
+        if e.max() > 1e-7 * sc:
+            i = int(np.argmax(e))
+            return False, (f"s[{i}] = {float(d[i])!r} but the unique minimiser (planted, strict complementarity) has "
+                           f"{float(ref[i])!r}")
+    return True, ""
+
+
+def degenerate_optimum_np(A, b):
+    """float version of `degenerate_optimum` for large systems (known-finding predicate D4c): optimum from an
+    independent solver (scipy.optimize.nnls on a Cholesky square root), zero entry with vanishing gradient"""
+    try:
+        from scipy.optimize import nnls
+
+        L = np.linalg.cholesky(np.asarray(A, dtype=float))
+        x, _ = nnls(L.T, np.linalg.solve(L, np.asarray(b, dtype=float)), maxiter=20 * len(b) + 100)
+    except Exception:
+        return False
+    g = A @ x - b
+    scale = max(float(np.abs(b).max()), 2.0 ** -40)
+    return bool(np.any((x == 0) & (np.abs(g) <= 1e-10 * scale)))
+
+
+def pack_f64(a):
+    """compact exact encoding of a float64 array for observations (large cases must not dump arrays as text)"""
+    import base64
+    import zlib
+
+    a = np.ascontiguousarray(np.asarray(a, dtype="<f8"))
+    return {"shape": list(a.shape), "f64z": base64.b64encode(zlib.compress(a.tobytes(), 6)).decode()}
+
+
+def unpack_f64(o):
+    import base64
+    import zlib
+
+    return np.frombuffer(zlib.decompress(base64.b64decode(o["f64z"])), dtype="<f8").reshape(o["shape"]).copy()
+
+
+def straddle(c):
+    """sizes on both sides of a new constant c: just below, at, just above, a non-multiple above, 2c+1"""
+    return [c - 1, c, c + 1, c + c // 3 + 1, 2 * c + 1]
+
 # ------------------------------------------------------------------------------------------------
 # generators of systems
 # ------------------------------------------------------------------------------------------------
@@ -468,6 +729,11 @@ class C05(PropertyCheck):
         "(F+H) symmetric positive definite (the property's quantifier); singular systems only for the "
         "unconstrained solver's exception clause",
         "repaired warm-start prologue (fixes/D4-fnnls-warm-start.patch) is what the model mirrors",
+        "large (seed-described, `big`) cases are judged by the vectorised KKT / factor / mapped-data oracle alone "
+        "(no model comparison): float64 evaluation with an explicit evaluation-error bound added to the slack",
+        "histories: in-place edits go through public API only (Array2D.__setitem__ on dataset.data, plain attributes "
+        "of SettingsInversion, re-assignment of LinearObj.regularization); the noise map / PSF of an existing "
+        "Imaging are not edited in place (its cached convolver / w_tilde legitimately depend on them)",
     ]
     search_budget_s = {"quick": 40, "thorough": 300}
     modelled_functions = [
@@ -553,6 +819,13 @@ class C05(PropertyCheck):
         yield from self._inversion_cases(rng, 24 if quick else 220)
         # 5. the Cholesky bookkeeping of fnnls_cholesky, function by function and in sequence
         yield from self._chol_cases(rng, quick)
+        # 6. round 4: exact ratio ties / degenerate steps of the active-set loop (permutation-invariant systems)
+        yield from self._tie_cases(rng, quick)
+        # 7. round 4: histories on reused objects (each step judged against a fresh object in that state)
+        yield from self._hist_linear_cases(rng, 64 if quick else 640)
+        yield from self._hist_inversion_cases(rng, 14 if quick else 140)
+        # 8. round 4: moderate-size oracle-only systems (iteration-count / size-gated behaviour without a hint)
+        yield from self._mid_cases(rng, quick)
 
     def _solver_case(self, rng, A, b, pm, tag):
         return {"tag": tag, "kind": "solver", "A": qmat(A), "b": qlist(b),
@@ -790,6 +1063,354 @@ class C05(PropertyCheck):
             done += 1
             yield {"tag": "chol_fnnls_rat", "kind": "chol", "sub": "fnnls", "A": qmat(A), "b": qlist(b)}
 
+    # ------------------------------------------------------------------ round 4: large, oracle-only cases
+    # Every size the property's code loops over, addressed separately: outer iterations of the active-set loop
+    # ("iter": size k of the optimum's support — a cold start needs >= k insertions), system size ("n"),
+    # length of the carried Cholesky factor ("chol_m"), positions deleted at once ("chol_d"), unmasked data
+    # pixels = rows of the mapping matrices ("pix"), frame pixels H*W ("frame").
+    BIG_N_CAP = 300       # largest constant served in the n / iteration / factor dimensions at all five sizes
+    BIG_N_HARD_CAP = 700  # ... up to here only c-1, c+1 in the iteration dimension (a solve is O(n^3) numpy work)
+    BIG_CHOL_D_CAP = 200  # ... for "positions deleted at once" (each deletion runs the pure-Python _cholupdate)
+    BIG_PIX_CAP = 33000   # ... in the data-pixel / frame dimensions
+    BIG_KERNEL = [[0, 1, 2], [0, 8, 1], [3, 0, 1]]  # /16: sums to one (Imaging normalises), no symmetry
+
+    def _big_solver(self, rng, n, k, dim, hint, p_mode=None, design=None, rhs=None, sub="solver"):
+        rhs = rhs or rng.choice(["planted", "planted", "planted", "noise"])
+        design = design or rng.choice(BIG_DESIGNS)
+        c = {"kind": "big", "large": True, "sub": sub, "dim": dim, "hint": hint, "seed": rng.randint(0, 2**31 - 1),
+             "n": int(n), "k": int(min(k, n)), "design": design, "rhs": rhs,
+             "scale": [rng.choice([0, 0, -3, 4]), rng.choice([0, 0, 5, -2])],
+             "p_mode": p_mode or rng.choice(["none", "none", "prod", "full", "mask", "idx"])}
+        if sub == "recon":
+            c["fn"] = rng.choice(["posonly", "posonly", "posneg"])
+            c["p_initial"] = rng.choice([True, False, None])
+            c["p_mode"] = None
+        c["tag"] = f"big_{sub}_{dim}_{c['rhs']}_{c.get('fn') or c['p_mode']}"
+        return c
+
+    def _big_chol(self, rng, n, m, dcount, dim, hint):
+        m = max(1, min(m, n))
+        return {"tag": f"big_chol_{dim}", "kind": "big", "large": True, "sub": "chol", "dim": dim, "hint": hint,
+                "seed": rng.randint(0, 2**31 - 1), "n": int(n), "m": int(m), "dcount": int(max(0, min(dcount, m))),
+                "first_k": rng.choice([0, 0, 2, max(2, m // 2)]) if m >= 2 else 0,
+                "ends": rng.choice(["first", "last", "both", "inner"]),
+                "dels_as": rng.choice(["ndarray", "list", "tuple"])}
+
+    def _big_inversion(self, rng, npix, n, dim, hint, frame=None):
+        """one MockLinearObjFuncList with n parameters on exactly `npix` unmasked pixels of a NON-SQUARE frame, window
+        off-centre, last window row incomplete, noise map != 1, anisotropic pixel scales, asymmetric signed-free
+        PSF (only where the pure-Python convolution is affordable), every value dyadic"""
+        rows = max(1, int(round((npix * rng.choice([0.4, 0.7, 1.6])) ** 0.5)))
+        cols = -(-npix // rows)
+        rows = -(-npix // cols)
+        top, left, bottom, right = rng.randint(2, 4), rng.randint(2, 6), rng.randint(2, 3), rng.randint(2, 4)
+        H, W = rows + top + bottom, cols + left + right
+        if frame:  # the frame H*W itself at the requested size (non-square), window kept inside with a margin
+            minH, minW = rows + top + 2, cols + left + 2
+            step = -1 if frame < hint else 1
+            for f in [frame + step * t for t in range(0, 12)]:
+                shape = next(((h, f // h) for h in range(minH, f // minW + 1)
+                              if f % h == 0 and f // h >= minW and h != f // h), None)
+                if shape:
+                    H, W = shape
+                    break
+            else:
+                H, W = minH, max(minW, -(-frame // minH))
+        blur = n * npix <= 40000 and rng.random() < 0.7
+        pos = rng.random() < 0.85
+        return {"tag": f"big_inversion_{dim}", "kind": "big", "large": True, "sub": "inversion", "dim": dim, "hint": hint,
+                "seed": rng.randint(0, 2**31 - 1), "H": int(H), "W": int(W), "top": top, "left": left,
+                "rows": int(rows), "cols": int(cols), "npix": int(npix), "n": int(n), "blur": bool(blur),
+                "positive": pos, "p_initial": rng.choice([True, False, None]),
+                "diag_value": rng.choice([1.0, 0.5, 2.0])}
+
+    def generate_large(self, hints, rng):
+        """constant-directed cases (DESIGN §13): for every new integer constant c, every size dimension of the
+        property just below / at / just above c, at c + c//3 + 1 and at 2c + 1.  All cases are `large`: no model
+        comparison, the vectorised oracle (`_oracle_big`) judges alone."""
+        for c in sorted(set(int(h) for h in hints)):
+            if c < 2:
+                continue
+            for t, size in enumerate(straddle(c)):  # smallest sizes first: the runner cuts the tail by time
+                size = max(1, size)
+                if c <= self.BIG_N_CAP:
+                    extra = max(2, size // 8)
+                    # outer iterations: support of the optimum = size, cold start / rejected warm start / full
+                    for pm, rhs in (("none", "planted"), ("prod", "planted"), ("none", "noise")):
+                        yield self._big_solver(rng, size + extra, size, "iter", c, p_mode=pm, rhs=rhs)
+                    yield self._big_solver(rng, size + extra, size, "iter", c, sub="recon", rhs="planted")
+                    # system size n = size (support ~ 70 %), every P_initial mode over the sizes
+                    yield self._big_solver(rng, size, max(1, (7 * size) // 10), "n", c)
+                    yield self._big_solver(rng, size, max(1, size // 3), "n", c, sub="recon")
+                    # the carried factor: m insertions, then deletions at once, then insertions again
+                    yield self._big_chol(rng, size + extra, size, max(1, size // 5), "chol_m", c)
+                    if c <= self.BIG_CHOL_D_CAP:
+                        yield self._big_chol(rng, 2 * size + 3, 2 * size, size, "chol_d", c)
+                    if t in (2, 4) and size <= 400:  # through a real Inversion: parameters, and iterations
+                        yield self._big_inversion(rng, size + rng.randint(1, 9), size, "inv_n", c)
+                elif c <= self.BIG_N_HARD_CAP and t in (0, 2):
+                    for rhs in ("planted",) if t == 0 else ("planted", "noise"):
+                        yield self._big_solver(rng, size + 2, size, "iter", c, p_mode="none", rhs=rhs, design="nonneg")
+                if c <= self.BIG_PIX_CAP and size >= 4:
+                    yield self._big_inversion(rng, size, rng.randint(2, 4), "pix", c)
+                    if size >= 64 and t != 3:
+                        yield self._big_inversion(rng, max(4, size // 3), rng.randint(2, 3), "frame", c, frame=size)
+
+    def _mid_cases(self, rng, quick):
+        """always-on sample of the same large, oracle-only cases at moderate sizes (a count-gated branch written
+        without a literal, or a constant already in the baseline, still has to pass these); cheap: milliseconds each"""
+        sizes = [(150, 170), (300, 330)] if quick else [(70, 80), (150, 170), (300, 330), (520, 560), (260, 520)]
+        for k, n in sizes:
+            for pm in ("none", "prod") if quick else ("none", "prod", "full", "mask", "idx"):
+                yield self._big_solver(rng, n, k, "mid", 0, p_mode=pm, rhs="planted")
+            yield self._big_solver(rng, n, k, "mid", 0, p_mode="none", rhs="noise")
+            yield self._big_solver(rng, n, k, "mid", 0, sub="recon", rhs="planted")
+        yield self._big_chol(rng, 170, 150, 30, "mid", 0)
+        yield self._big_chol(rng, 330, 300, 150, "mid", 0)
+        yield self._big_inversion(rng, 150, 140, "mid", 0)
+        yield self._big_inversion(rng, 1100, 3, "mid", 0)
+        if not quick:
+            yield self._big_inversion(rng, 330, 320, "mid", 0)
+            yield self._big_inversion(rng, 4500, 4, "mid", 0)
+
+    @staticmethod
+    def _big_p_initial(case, A, b):
+        n = len(b)
+        r = np.random.RandomState((case["seed"] + 1) % (2**32))
+        pm = case["p_mode"]
+        if pm == "none":
+            return np.zeros(0, dtype=int)
+        if pm == "prod":
+            return np.linalg.solve(A, b) > 0
+        if pm == "full":
+            return np.ones(n, dtype=bool)
+        if pm == "mask":
+            return r.rand(n) < 0.5
+        return r.permutation(n)[: max(1, n // 3)].astype(int)
+
+    @staticmethod
+    def _big_chol_plan(case):
+        """(A, b, inserts, delete positions, re-inserts) of a large factor sequence, from the descriptor"""
+        n, m = case["n"], case["m"]
+        A, b, _ = big_system(case["seed"], n, n, "signed", "noise")
+        r = np.random.RandomState((case["seed"] + 2) % (2**32))
+        perm = [int(v) for v in r.permutation(n)]
+        ins, rest = perm[:m], perm[m:]
+        dc = case["dcount"]
+        pool = list(range(m))
+        forced = {"first": [0], "last": [m - 1], "both": [0, m - 1], "inner": []}[case["ends"]]
+        forced = list(dict.fromkeys(forced))[:dc]
+        others = [p for p in pool if p not in forced and (case["ends"] != "inner" or 0 < p < m - 1 or m <= 2)]
+        dels = forced + [int(v) for v in r.permutation(others)[: max(0, dc - len(forced))]]
+        dels = [int(v) for v in r.permutation(dels)]  # unsorted
+        return A, b, ins, dels, rest[:2]
+
+    def _big_inversion_world(self, case):
+        """arrays of a large inversion case from its descriptor: mask, mapping matrix M (npix x n), data, noise,
+        kernel; everything dyadic"""
+        H, W, top, left, rows, cols, npix, n = (case[k] for k in ("H", "W", "top", "left", "rows", "cols", "npix", "n"))
+        r = np.random.RandomState(case["seed"] % (2**32))
+        m = np.full((H, W), True)
+        win = np.zeros(rows * cols, dtype=bool)
+        win[:npix] = True
+        m[top:top + rows, left:left + cols] = ~win.reshape(rows, cols)
+        if n * npix <= 400000:
+            M = (r.randint(1, 5, size=(npix, n)) * (r.rand(npix, n) < max(0.08, min(0.6, 6.0 / n)))).astype(float)
+        else:
+            M = np.zeros((npix, n))
+        for j in range(n):  # every parameter illuminates "its own" pixels as well
+            M[np.arange(j, npix, n), j] += 2.0
+        noise = r.randint(2, 9, size=npix) / 4.0
+        s0 = r.randint(0, 9, size=n) / 4.0 * (r.rand(n) < 0.7)
+        data = M @ s0 + noise * (r.randint(-12, 13, size=npix) / 4.0)
+        data = np.round(data * 64.0) / 64.0
+        return m, M, data, noise, np.array(self.BIG_KERNEL, dtype=float) / 16.0
+
+    def _run_big(self, aa, case):
+        from scipy import linalg as slg
+
+        sub = case["sub"]
+        if sub in ("solver", "recon"):
+            A, b, _ = big_system(case["seed"], case["n"], case["k"], case["design"], case["rhs"], case["scale"])
+            A0, b0 = A.copy(), b.copy()
+            if sub == "solver":
+                from autoarray.util.fnnls import fnnls_cholesky
+
+                P = self._big_p_initial(case, A, b)
+                try:
+                    d = fnnls_cholesky(A, b, P_initial=P)
+                except RuntimeError:
+                    return {"err": "runtime"}
+                except (np.linalg.LinAlgError, ValueError):
+                    return {"err": "singular"}
+            else:
+                from autoarray import exc
+                from autoarray.inversion.inversion import inversion_util
+
+                try:
+                    if case["fn"] == "posneg":
+                        d = inversion_util.reconstruction_positive_negative_from(
+                            data_vector=b, curvature_reg_matrix=A, mapper_param_range_list=[])
+                    else:
+                        d = inversion_util.reconstruction_positive_only_from(
+                            data_vector=b, curvature_reg_matrix=A,
+                            settings=aa.SettingsInversion(positive_only_uses_p_initial=case["p_initial"]))
+                except exc.InversionException:
+                    return {"err": "InversionException"}
+            return {"d": pack_f64(d), "inputs_intact": bool(np.array_equal(A, A0) and np.array_equal(b, b0))}
+        if sub == "chol":
+            from autoarray.util import cholesky_funcs as cf
+
+            A, b, ins, dels, re_ins = self._big_chol_plan(case)
+            U = np.zeros((0, 0))
+            P = np.array([], dtype=int)
+            fk = case.get("first_k", 0)
+            stages = []
+
+            def stage(what):
+                x = slg.cho_solve((U, False), b[P]) if len(P) else np.zeros(0)
+                stages.append({"what": what, "U": pack_f64(np.asarray(U, dtype=float)), "P": [int(v) for v in P],
+                               "x": pack_f64(x)})
+
+            try:
+                for t, i in enumerate(ins):
+                    P = np.append(P, int(i))
+                    if fk and t < fk - 1:
+                        continue
+                    U = slg.cholesky(A[P][:, P]) if (fk and t == fk - 1) else cf.cholinsertlast(U, A[int(i)][P])
+                stage("inserted")
+                U = cf.choldeleteindexes(U, self._as_index_container(dels, case.get("dels_as", "ndarray")))
+                P = np.delete(P, dels)
+                stage("deleted")
+                for i in re_ins:
+                    P = np.append(P, int(i))
+                    U = cf.cholinsertlast(U, A[int(i)][P])
+                stage("reinserted")
+            except (ValueError, np.linalg.LinAlgError):
+                return {"err": "domain"}
+            return {"stages": stages}
+        # a real Inversion
+        from autoarray import exc
+
+        m, M, data, noise, K = self._big_inversion_world(case)
+        H, W = m.shape
+        ps = (0.5, 0.25)
+        mask = aa.Mask2D(mask=m, pixel_scales=ps)
+        dn, nn = np.zeros((H, W)), np.ones((H, W))
+        dn[~m], nn[~m] = data, noise
+        psf = aa.Kernel2D.no_mask(values=K, pixel_scales=ps) if case["blur"] else aa.Kernel2D.no_blur(pixel_scales=ps)
+        ds = aa.Imaging(data=aa.Array2D.no_mask(values=dn, pixel_scales=ps),
+                        noise_map=aa.Array2D.no_mask(values=nn, pixel_scales=ps), psf=psf).apply_mask(mask=mask)
+        kw = {} if case["blur"] else {"operated_mapping_matrix_override": M}
+        lo = aa.m.MockLinearObjFuncList(parameters=case["n"], grid=aa.Grid2D.from_mask(mask=mask), mapping_matrix=M, **kw)
+        inv = aa.Inversion(dataset=ds, linear_obj_list=[lo], settings=aa.SettingsInversion(
+            use_w_tilde=False, use_positive_only_solver=case["positive"],
+            positive_only_uses_p_initial=case["p_initial"],
+            no_regularization_add_to_curvature_diag_value=case["diag_value"]))
+        try:
+            s = np.array(inv.reconstruction, dtype=float)
+        except exc.InversionException:
+            return {"err": "InversionException"}
+        md = inv.mapped_reconstructed_data_dict[lo]
+        tot = inv.mapped_reconstructed_data
+        return {"s": pack_f64(s), "s_dict": pack_f64(np.asarray(inv.reconstruction_dict[lo], dtype=float)),
+                "mapped": pack_f64(np.asarray(md.array if hasattr(md, "array") else md, dtype=float).ravel()),
+                "total": pack_f64(np.asarray(tot.array if hasattr(tot, "array") else tot, dtype=float).ravel())}
+
+    def _oracle_big(self, case, obs):
+        sub = case["sub"]
+        if sub in ("solver", "recon"):
+            A, b, ref = big_system(case["seed"], case["n"], case["k"], case["design"], case["rhs"], case["scale"])
+            if "err" in obs:
+                return False, f"{'fnnls_cholesky' if sub == 'solver' else 'the reconstruction routine'} raised " \
+                              f"({obs['err']}) on an SPD system of size {case['n']}"
+            d = unpack_f64(obs["d"])
+            if not obs.get("inputs_intact", True):
+                return False, "the caller's matrix / data vector was modified by the call"
+            if sub == "recon" and case["fn"] == "posneg":
+                if d.shape != b.shape or not np.all(np.isfinite(d)):
+                    return False, "solution has the wrong shape or is not finite"
+                res = np.abs(A @ d - b)
+                slack = float(KKT_SLACK) * (np.abs(A).max() * np.abs(d).sum() + np.abs(b).max()) \
+                    + (len(b) + 2) * 2.0 ** -52 * (np.abs(A) @ np.abs(d) + np.abs(b))
+                if np.any(res > slack):
+                    i = int(np.argmax(res - slack))
+                    return False, f"((F+H)s - D)[{i}] = {float(res[i])!r} (slack {float(slack[i]):.3e})"
+                return True, ""
+            return kkt_check_np(A, b, d, EPS * len(b), ref)
+        if sub == "chol":
+            if "err" in obs:
+                return False, "the factor update raised on a positive-definite system"
+            A, b, ins, dels, re_ins = self._big_chol_plan(case)
+            P1 = list(ins)
+            P2 = np_delete_positions(P1, dels)
+            want = [P1, P2, P2 + list(re_ins)]
+            if [s["P"] for s in obs["stages"]] != want:
+                return False, "the passive list kept next to the factor is not the expected one"
+            amax = float(np.abs(A).max())
+            for s, P in zip(obs["stages"], want):
+                U, x = unpack_f64(s["U"]), unpack_f64(s["x"])
+                k = len(P)
+                if U.shape != (k, k):
+                    return False, f"{s['what']}: factor is {U.shape} for {k} passive indices"
+                if not np.all(np.isfinite(U)):
+                    return False, f"{s['what']}: the factor has non-finite entries"
+                if np.any(np.tril(U, -1) != 0):
+                    i, j = [int(v[0]) for v in np.where(np.tril(U, -1) != 0)]
+                    return False, f"{s['what']}: U[{i},{j}] = {float(U[i, j])!r} below the diagonal"
+                if k and np.diag(U).min() <= 0:
+                    return False, f"{s['what']}: diagonal entry {int(np.argmin(np.diag(U)))} of the factor is not positive"
+                App = A[np.ix_(P, P)]
+                E = np.abs(U.T @ U - App)
+                if k and E.max() > 1e-9 * amax:
+                    i, j = [int(v) for v in np.unravel_index(int(np.argmax(E)), E.shape)]
+                    return False, (f"{s['what']} (|P| = {k}): (U'U)[{i},{j}] = {float((U.T @ U)[i, j])!r} but the matrix "
+                                   f"entry is {float(App[i, j])!r}")
+                if k:
+                    res = np.abs(App @ x - b[P])
+                    if res.max() > 1e-9 * (amax * np.abs(x).sum() + np.abs(b).max()):
+                        return False, f"{s['what']}: cho_solve through the factor leaves a residual {float(res.max())!r}"
+            return True, ""
+        # inversion: the system the inversion must build, from the descriptor (numpy, independent of the library)
+        m, M, data, noise, K = self._big_inversion_world(case)
+        n, npix = case["n"], case["npix"]
+        if case["blur"]:
+            from scipy.signal import convolve2d
+
+            B = np.zeros_like(M)
+            for j in range(n):
+                img = np.zeros(m.shape)
+                img[~m] = M[:, j]
+                B[:, j] = convolve2d(img, K, mode="same")[~m]
+        else:
+            B = M
+        Fm = B.T @ (B / (noise ** 2)[:, None]) + case["diag_value"] * np.eye(n)
+        D = B.T @ (data / noise ** 2)
+        if "err" in obs:
+            if not case["positive"]:
+                return True, ""  # the statement allows the exception for the unconstrained solver
+            return False, f"InversionException on a positive-definite system ({n} parameters, {npix} data pixels)"
+        s = unpack_f64(obs["s"])
+        if case["positive"]:
+            ok, det = kkt_check_np(Fm, D, s, EPS * n)
+        else:
+            res = np.abs(Fm @ s - D) if s.shape == D.shape else np.array([np.inf])
+            slack = 1e-9 * (np.abs(Fm).max() * np.abs(s).sum() + np.abs(D).max())
+            ok, det = bool(res.max() <= slack), f"((F+H)s - D) has an entry {float(res.max())!r} (slack {slack:.3e})"
+        if not ok:
+            return False, det
+        if not np.array_equal(unpack_f64(obs["s_dict"]), s):
+            return False, "reconstruction_dict entry is not the slice of the reconstruction"
+        want = B @ s
+        tol = 1e-9 * max(float(np.abs(want).max()), 2.0 ** -40)
+        for key, what in (("mapped", "mapped data of the linear object is not its blurred mapping matrix times s"),
+                          ("total", "total mapped reconstructed data is not the sum over the linear objects")):
+            got = unpack_f64(obs[key])
+            if got.shape != want.shape or not np.all(np.abs(got - want) <= tol):
+                k = int(np.argmax(np.abs(got - want))) if got.shape == want.shape else -1
+                return False, what + (f" (pixel {k}: {float(got[k])!r} vs {float(want[k])!r})" if k >= 0 else "")
+        return True, ""
+
     LAYOUTS = ["mapper", "mapper+func", "func+mapper", "mapper+mapper", "mapper+func+mapper", "func+func+mapper",
                "func"]
 
@@ -878,6 +1499,10 @@ class C05(PropertyCheck):
     def run_impl(self, case):
         aa = load_autoarray()
         kind = case["kind"]
+        if kind == "big":
+            return self._run_big(aa, case)
+        if kind == "history":
+            return self._run_history(aa, case)
         if kind == "solver":
             from autoarray.util.fnnls import fnnls_cholesky
 
@@ -1020,7 +1645,8 @@ class C05(PropertyCheck):
             return {"d": qlist(d)}
         raise ValueError(sub)
 
-    def _build_inversion(self, aa, case):
+    def _make_dataset(self, aa, case):
+        """(dataset, mask, over_sampler, grid) of an inversion case"""
         H, W = case["H"], case["W"]
         sc = float(F(case["scale"]))
         m = np.array([c == "1" for c in case["mask"]], dtype=bool).reshape(H, W)
@@ -1044,37 +1670,53 @@ class C05(PropertyCheck):
                                                  pixelization=aa.OverSamplingUniform(sub_size=sub)),
         ).apply_mask(mask=mask)
         over = aa.OverSamplerUniform(mask=mask, sub_size=sub)
-        grid = over.over_sampled_grid
-        objs = []
-        for o in case["objs"]:
-            if o["type"] == "mapper":
-                mesh_grid = aa.Mesh2DRectangular.overlay_grid(grid=grid, shape_native=tuple(o["shape"]))
-                mg = aa.MapperGrids(mask=mask, source_plane_data_grid=grid, source_plane_mesh_grid=mesh_grid)
-                objs.append(aa.MapperRectangular(
-                    mapper_grids=mg, over_sampler=over, border_relocator=None,
-                    regularization=aa.reg.Constant(coefficient=float(F(o["coefficient"])))))
-            else:
-                objs.append(aa.m.MockLinearObjFuncList(
-                    parameters=o["params"], grid=aa.Grid2D.from_mask(mask=mask),
-                    mapping_matrix=(typed(o["matrix"], "int64") if ints else np_mat(fr_mat(o["matrix"]))),
-                    regularization=aa.reg.Constant(coefficient=1.0) if o["regularized"] else None))
-        settings = aa.SettingsInversion(
+        return ds, mask, over, over.over_sampled_grid
+
+    def _make_obj(self, aa, case, o, mask, over, grid):
+        ints = case.get("ints")
+        if o["type"] == "mapper":
+            mesh_grid = aa.Mesh2DRectangular.overlay_grid(grid=grid, shape_native=tuple(o["shape"]))
+            mg = aa.MapperGrids(mask=mask, source_plane_data_grid=grid, source_plane_mesh_grid=mesh_grid)
+            return aa.MapperRectangular(
+                mapper_grids=mg, over_sampler=over, border_relocator=None,
+                regularization=aa.reg.Constant(coefficient=float(F(o["coefficient"]))))
+        return aa.m.MockLinearObjFuncList(
+            parameters=o["params"], grid=aa.Grid2D.from_mask(mask=mask),
+            mapping_matrix=(typed(o["matrix"], "int64") if ints else np_mat(fr_mat(o["matrix"]))),
+            regularization=aa.reg.Constant(coefficient=1.0) if o["regularized"] else None)
+
+    @staticmethod
+    def _source_zero(case):
+        return (np.array(case["image_pixels_source_zero"], dtype=int)
+                if case.get("zero_as") == "ndarray" else case["image_pixels_source_zero"])
+
+    def _make_settings(self, aa, case):
+        kw = {}
+        if case.get("diag_value") is not None:  # round 4: integer-valued F+H through a real Inversion (tie cases)
+            kw["no_regularization_add_to_curvature_diag_value"] = float(F(case["diag_value"]))
+        return aa.SettingsInversion(
             use_w_tilde=case["use_w_tilde"],
             use_positive_only_solver=case["use_positive_only_solver"],
             positive_only_uses_p_initial=case["positive_only_uses_p_initial"],
             force_edge_pixels_to_zeros=case["force_edge_pixels_to_zeros"],
             force_edge_image_pixels_to_zeros=case["force_edge_image"],
-            image_pixels_source_zero=(np.array(case["image_pixels_source_zero"], dtype=int)
-                                      if case.get("zero_as") == "ndarray" else case["image_pixels_source_zero"]),
-        )
+            image_pixels_source_zero=self._source_zero(case), **kw)
+
+    def _make_inversion(self, aa, case, ds, objs, settings):
         via = case.get("via", "factory")
         if via == "imaging_from":
             from autoarray.inversion.inversion import factory
 
-            return factory.inversion_imaging_from(dataset=ds, linear_obj_list=objs, settings=settings), objs
+            return factory.inversion_imaging_from(dataset=ds, linear_obj_list=objs, settings=settings)
         if via == "class" and not case["use_w_tilde"]:
-            return aa.InversionImagingMapping(dataset=ds, linear_obj_list=objs, settings=settings), objs
-        return aa.Inversion(dataset=ds, linear_obj_list=objs, settings=settings), objs
+            return aa.InversionImagingMapping(dataset=ds, linear_obj_list=objs, settings=settings)
+        return aa.Inversion(dataset=ds, linear_obj_list=objs, settings=settings)
+
+    def _build_inversion(self, aa, case):
+        ds, mask, over, grid = self._make_dataset(aa, case)
+        objs = [self._make_obj(aa, case, o, mask, over, grid) for o in case["objs"]]
+        settings = self._make_settings(aa, case)
+        return self._make_inversion(aa, case, ds, objs, settings), objs
 
     @staticmethod
     def _norm(case):
@@ -1088,11 +1730,11 @@ class C05(PropertyCheck):
         c["force_edge_pixels_to_zeros"] = bool(case["force_edge_pixels_to_zeros"])
         return c
 
-    def _run_inversion(self, aa, case):
-        from autoarray import exc
+    def _aux(self, inv, objs, case):
+        """what the model / oracle take from the implementation without constraining it (F+H, D and the blurred
+        mapping matrices are C04's / C03's subject; edge and zero lists are compared with independent ones)"""
         from autoarray.inversion.pixelization.mappers.abstract import AbstractMapper
 
-        inv, objs = self._build_inversion(aa, case)
         A = np.array(inv.curvature_reg_matrix, dtype=float)
         b = np.array(inv.data_vector, dtype=float)
         params = [int(o.params) for o in objs]
@@ -1114,27 +1756,559 @@ class C05(PropertyCheck):
                     zero_expect += [int(j) + st for j in np.where((mm != 0).any(axis=0))[0]]
         aux["zero"] = zero
         aux["zero_expect"] = zero_expect
-        obs = {"aux": aux}
+        return aux
+
+    READS = ["reconstruction", "recon_dict", "mapped_dict", "mapped_total", "image_dict", "image_total"]
+
+    def _observe(self, inv, objs, obs, order=None):
+        """the observed quantities of an inversion, read in the given order (default: the order of READS)"""
+        from autoarray import exc
+
+        def flat(v):
+            return qlist(np.asarray(v.array if hasattr(v, "array") else v).ravel())
+
+        readers = {
+            "reconstruction": lambda: qlist(np.array(inv.reconstruction, dtype=float)),
+            "recon_dict": lambda: [qlist(np.asarray(inv.reconstruction_dict[o])) for o in objs],
+            "mapped_dict": lambda: (lambda md: [flat(md[o]) for o in objs])(inv.mapped_reconstructed_data_dict),
+            "mapped_total": lambda: flat(inv.mapped_reconstructed_data),
+            # the `image` twins of the same quantities
+            "image_dict": lambda: (lambda mi: [qlist(np.asarray(mi[o]).ravel()) for o in objs])(
+                inv.mapped_reconstructed_image_dict),
+            "image_total": lambda: qlist(np.asarray(inv.mapped_reconstructed_image).ravel()),
+        }
         try:
-            s = np.array(inv.reconstruction, dtype=float)
+            for name in (order or self.READS):
+                obs[name] = readers[name]()
         except exc.InversionException:
+            for name in self.READS:
+                obs.pop(name, None)
             obs["err"] = "InversionException"
-            return obs
-        obs["reconstruction"] = qlist(s)
-        obs["recon_dict"] = [qlist(np.asarray(inv.reconstruction_dict[o])) for o in objs]
-        md = inv.mapped_reconstructed_data_dict
-        obs["mapped_dict"] = [qlist(np.asarray(md[o].array if hasattr(md[o], "array") else md[o]).ravel())
-                              for o in objs]
-        tot = inv.mapped_reconstructed_data
-        obs["mapped_total"] = qlist(np.asarray(tot.array if hasattr(tot, "array") else tot).ravel())
-        # the `image` twins of the same quantities
-        mi = inv.mapped_reconstructed_image_dict
-        obs["image_dict"] = [qlist(np.asarray(mi[o]).ravel()) for o in objs]
-        obs["image_total"] = qlist(np.asarray(inv.mapped_reconstructed_image).ravel())
         return obs
+
+    def _run_inversion(self, aa, case):
+        inv, objs = self._build_inversion(aa, case)
+        return self._observe(inv, objs, {"aux": self._aux(inv, objs, case)})
+
+    # ------------------------------------------------------------------ round 4: histories on reused objects
+    DECOYS = ["total_params", "mapper_edge_pixel_list", "no_regularization_index_list", "mapping_matrix",
+              "operated_mapping_matrix", "data_vector", "curvature_matrix", "regularization_matrix",
+              "regularization_matrix_reduced", "curvature_reg_matrix", "curvature_reg_matrix_reduced",
+              "reconstruction_reduced", "regularization_term", "log_det_curvature_reg_matrix_term",
+              "log_det_regularization_matrix_term", "reconstruction_noise_map", "data_subtracted_dict",
+              "mapped_reconstructed_image", "mapped_reconstructed_data", "reconstruction_dict",
+              "regularization_weights_mapper_dict", "all_linear_obj_have_regularization", "mapper_zero_pixel_list"]
+
+    def _hist_virtual(self, case):
+        """per step: the ordinary (single-call) case whose model value / oracle is the expectation of the step —
+        the value a FRESH object in that state must give — or None for a deliberately faulty call"""
+        out = []
+        if case["surface"] == "inversion":
+            for st in case["steps"]:
+                out.append(None if st.get("fault") else st["case"])
+            return out
+        slots = case["slots"]
+        for st in case["steps"]:
+            if st.get("fault"):
+                out.append(None)
+            elif st["call"] == "fnnls":
+                out.append({"tag": "hist_solver", "kind": "solver", "A": slots[st["A"]], "b": slots[st["b"]],
+                            "p_init": st.get("p_init")})
+            elif st["call"] == "posonly":
+                flag = {"shared": case.get("shared_p_initial"), "default": None}.get(st["settings"], st.get("p_initial"))
+                out.append({"tag": "hist_recon_posonly", "kind": "recon", "fn": "posonly", "A": slots[st["A"]],
+                            "b": slots[st["b"]], "p_initial": flag})
+            else:
+                out.append({"tag": "hist_recon_posneg", "kind": "recon", "fn": "posneg", "A": slots[st["A"]],
+                            "b": slots[st["b"]], "ranges": st.get("ranges", [])})
+        return out
+
+    def _run_history(self, aa, case):
+        if case["surface"] == "inversion":
+            return self._run_history_inversion(aa, case)
+        from autoarray import exc
+        from autoarray.inversion.inversion import inversion_util
+        from autoarray.util.fnnls import fnnls_cholesky
+
+        # ONE ndarray per slot for the whole history: the same caller-owned objects are handed to every call
+        arrs, orig = {}, {}
+        for name, v in case["slots"].items():
+            n = len(v)
+            arrs[name] = typed(v, "float64", (n, n) if (n and isinstance(v[0], list)) else (n,))
+            orig[name] = arrs[name].copy()
+        shared = aa.SettingsInversion(positive_only_uses_p_initial=case.get("shared_p_initial"))
+        # an unrelated 1x1 call of each routine first: what an earlier CASE left behind in module-level state must
+        # not decide this history (each history is self-contained and replays alone)
+        one = np.array([[1.0]])
+        for flush in (lambda: fnnls_cholesky(one, np.array([1.0])),
+                      lambda: inversion_util.reconstruction_positive_only_from(
+                          data_vector=np.array([1.0]), curvature_reg_matrix=one, settings=aa.SettingsInversion()),
+                      lambda: inversion_util.reconstruction_positive_negative_from(
+                          data_vector=np.array([1.0]), curvature_reg_matrix=one, mapper_param_range_list=[])):
+            try:
+                flush()
+            except Exception:
+                pass
+        steps = []
+        for st in case["steps"]:
+            A, b = arrs[st["A"]], arrs[st["b"]]
+            fault = st.get("fault")
+            p = st.get("p_init")
+            P = (np.zeros(0, dtype=int) if p is None else np.array(p["mask"], dtype=bool) if p["kind"] == "mask"
+                 else np.array(p["idx"], dtype=int))
+            if fault == "short_b":
+                b = b[:-1].copy()
+            elif fault == "bad_index":
+                P = np.array([len(b) + 3], dtype=int)
+            elif fault == "not_spd":  # a negative diagonal entry: the factor update fails in the middle of the loop
+                A = A.copy()
+                j = st.get("fault_at", 0) % len(b)
+                A[j, j] = -abs(A[j, j]) - 1.0
+                b = np.abs(b) + 1.0
+            try:
+                if st["call"] == "fnnls":
+                    d = fnnls_cholesky(A, b, P_initial=P)
+                    o = {"d": qlist(d)}
+                elif st["call"] == "posonly":
+                    kw = {}
+                    if st["settings"] == "shared":
+                        kw["settings"] = shared
+                    elif st["settings"] == "fresh":
+                        kw["settings"] = aa.SettingsInversion(positive_only_uses_p_initial=st.get("p_initial"))
+                    if fault == "bad_index":
+                        raise IndexError("fault not applicable")
+                    o = {"s": qlist(inversion_util.reconstruction_positive_only_from(
+                        data_vector=b, curvature_reg_matrix=A, **kw))}
+                else:
+                    o = {"s": qlist(inversion_util.reconstruction_positive_negative_from(
+                        data_vector=b, curvature_reg_matrix=A,
+                        mapper_param_range_list=[list(r) for r in st.get("ranges", [])]))}
+            except Exception as e:
+                if fault:
+                    o = {"fault": type(e).__name__}
+                elif isinstance(e, exc.InversionException):
+                    o = {"err": "InversionException"}
+                elif st["call"] == "fnnls" and isinstance(e, RuntimeError):
+                    o = {"err": "runtime"}
+                elif st["call"] == "fnnls" and isinstance(e, (np.linalg.LinAlgError, ValueError)):
+                    o = {"err": "singular"}
+                else:
+                    o = {"err": type(e).__name__, "msg": str(e)[:200], "unexpected": True}
+            else:
+                if fault:
+                    o = {"fault": "returned"}
+            steps.append(o)
+        changed = sorted(k for k in arrs if not np.array_equal(arrs[k], orig[k]))
+        obs = {"steps": steps}
+        if changed:
+            obs["slots_modified"] = changed
+        return obs
+
+    @staticmethod
+    def _geometry(sc):
+        return (sc["H"], sc["W"], sc["mask"], sc["scale"], sc["sub"], str(sc["noise"]), str(sc["psf"]), sc.get("ints"))
+
+    def _run_history_inversion(self, aa, case):
+        """steps on REUSED objects (settings / dataset / linear objects carried from step to step and edited through
+        their public, in-place API) observed; the system each step is judged against (aux) comes from a completely
+        FRESH world built in the state the step describes"""
+        prev = None
+        steps = []
+        for st in case["steps"]:
+            sc = st["case"]
+            share = set(st.get("share", []))
+            try:
+                geom_same = prev is not None and self._geometry(prev["case"]) == self._geometry(sc)
+                # --- dataset: reused and edited in place through Array2D.__setitem__ where only the data differ
+                if prev is not None and "dataset" in share and geom_same and not sc.get("ints"):
+                    ds, mask, over, grid = prev["ds"], prev["mask"], prev["over"], prev["grid"]
+                    H, W = sc["H"], sc["W"]
+                    k = 0
+                    for y in range(H):
+                        for x in range(W):
+                            if sc["mask"][y * W + x] == "0":
+                                if sc["data"][y][x] != prev["case"]["data"][y][x]:
+                                    ds.data[k] = float(F(sc["data"][y][x]))
+                                k += 1
+                else:
+                    ds, mask, over, grid = self._make_dataset(aa, sc)
+                # --- linear objects: reused by id when the geometry is the same (regularization re-assigned)
+                objs, table = [], {}
+                for o in sc["objs"]:
+                    oid = o.get("id")
+                    old = prev["objs"].get(oid) if (prev is not None and "objs" in share and geom_same and oid) else None
+                    if old is not None and {k: v for k, v in old[1].items() if k != "coefficient"} == \
+                            {k: v for k, v in o.items() if k != "coefficient"}:
+                        obj = old[0]
+                        if old[1].get("coefficient") != o.get("coefficient"):
+                            obj.regularization = aa.reg.Constant(coefficient=float(F(o["coefficient"])))
+                    else:
+                        obj = self._make_obj(aa, sc, o, mask, over, grid)
+                    objs.append(obj)
+                    if oid:
+                        table[oid] = (obj, o)
+                # --- settings: one object across the worlds, public attributes edited in place
+                pc = prev["case"] if prev is not None else None
+                if prev is not None and "settings" in share and all(
+                        pc.get(k) == sc.get(k) for k in ("use_positive_only_solver", "positive_only_uses_p_initial",
+                                                         "diag_value")):
+                    settings = prev["settings"]
+                    settings.use_w_tilde = sc["use_w_tilde"]
+                    settings.force_edge_pixels_to_zeros = sc["force_edge_pixels_to_zeros"]
+                    settings.force_edge_image_pixels_to_zeros = sc["force_edge_image"]
+                    settings.image_pixels_source_zero = self._source_zero(sc)
+                else:
+                    settings = self._make_settings(aa, sc)
+                prev = {"case": sc, "ds": ds, "mask": mask, "over": over, "grid": grid, "settings": settings,
+                        "objs": {**(prev["objs"] if prev else {}), **table}}
+                if st.get("fault"):  # a linear object with one row too few: the build raises in the middle
+                    n_un = sc["mask"].count("0")
+                    bad = aa.m.MockLinearObjFuncList(parameters=1, grid=aa.Grid2D.from_mask(mask=mask),
+                                                     mapping_matrix=np.ones((max(1, n_un - 1), 1)))
+                    try:
+                        inv = self._make_inversion(aa, sc, ds, objs + [bad], settings)
+                        inv.reconstruction
+                        inv.mapped_reconstructed_data
+                        steps.append({"fault": "returned"})
+                    except Exception as e:
+                        steps.append({"fault": type(e).__name__})
+                    continue
+                inv = self._make_inversion(aa, sc, ds, objs, settings)
+                for name in st.get("decoys", []):  # unrelated derived quantities read FIRST
+                    try:
+                        getattr(inv, name)
+                    except Exception:
+                        pass
+                fresh_inv, fresh_objs = self._build_inversion(aa, sc)
+                obs = {"aux": self._aux(fresh_inv, fresh_objs, sc)}
+                steps.append(self._observe(inv, objs, obs, order=st.get("order")))
+            except Exception as e:
+                steps.append({"err": type(e).__name__, "msg": str(e)[:200], "unexpected": True})
+        return {"steps": steps}
+
+    # -- generators of histories
+    def _hist_linear_cases(self, rng, count):
+        P_MODES = ["none", "prod", "mask", "idx", "full"]
+        types = ["twin_b", "twin_A", "twin_tiny", "fault_reuse", "fault_first", "modes", "worlds", "worlds_size"]
+        for k in range(count):
+            htype = types[k % len(types)]
+            n = rng.randint(2, 6)
+            src = rng.random()
+            if src < 0.3 and n >= 3:
+                A, b, _ = sym_system(rng, n)
+            elif src < 0.5:
+                A = spd_int(rng, n)
+                b = [F(rng.randint(-6, 6)) for _ in range(n)]
+            else:
+                A, _ = spd_dyadic(rng, n, rng.choice(["gram", "gram", "tridiag", "diag"]))
+                b = rhs_for(rng, A, rng.choice(["planted", "noise", "noise", "negative"]))
+            call = rng.choice(["fnnls", "fnnls", "fnnls", "posonly", "posonly", "mixed"])
+            shared_flag = rng.choice([None, True, False])
+            slots = {"A0": qmat(A), "b0": qlist(b)}
+
+            def step(An, bn, label, fault=None, mode=None):
+                c = call if call != "mixed" else rng.choice(["posonly", "posneg", "fnnls"])
+                st = {"call": c, "A": An, "b": bn, "label": label, "fault": fault}
+                Af, bf = fr_mat(slots[An]), fr_vec(slots[bn])
+                if c == "fnnls":
+                    st["p_init"] = p_init_for(rng, Af, bf, mode or rng.choice(P_MODES))
+                elif c == "posonly":
+                    st["settings"] = rng.choice(["shared", "shared", "default", "fresh"])
+                    st["p_initial"] = rng.choice([None, True, False])
+                else:
+                    cut = rng.randint(0, len(bf) - 1)
+                    st["ranges"] = [[cut, len(bf)]]
+                if fault == "not_spd":
+                    st["fault_at"] = rng.randrange(len(bf))
+                return st
+
+            j = rng.randrange(n)
+            if htype == "twin_b":  # inside np.allclose's default tolerance, far outside the property's 1e-9
+                eps = F(1, 2 ** rng.choice([17, 18, 20]))
+                b1 = list(b)
+                b1[j] = b[j] * (1 + eps) if b[j] != 0 else F(1, 2 ** 30)
+                slots["b1"] = qlist(b1)
+                steps = [step("A0", "b0", "base"), step("A0", "b1", f"b[{j}] moved by {float(eps):.1e} relative"),
+                         step("A0", "b0", "base again")]
+            elif htype == "twin_A":
+                eps = F(1, 2 ** rng.choice([17, 18, 20]))
+                i = rng.randrange(n)
+                A1 = [r[:] for r in A]
+                A1[i][j] = A1[j][i] = A[i][j] * (1 + eps) if A[i][j] != 0 else F(1, 2 ** 24)
+                slots["A1"] = qmat(A1)
+                steps = [step("A0", "b0", "base"), step("A1", "b0", f"A[{i},{j}] moved by {float(eps):.1e} relative"),
+                         step("A0", "b0", "base again")]
+            elif htype == "twin_tiny":  # tiny values, absolute move of 2^-33 ~ 1.2e-10
+                bt = [x / 2 ** 24 for x in b]
+                b1 = list(bt)
+                b1[j] = bt[j] + F(1, 2 ** 33)
+                slots["b0"], slots["b1"] = qlist(bt), qlist(b1)
+                steps = [step("A0", "b0", "tiny base"), step("A0", "b1", f"b[{j}] moved by 2^-33 absolute"),
+                         step("A0", "b0", "tiny base again")]
+            elif htype in ("fault_reuse", "fault_first"):
+                fk = rng.choice(["short_b", "bad_index", "not_spd", "not_spd"])
+                b1 = [x + (1 if t == j else 0) for t, x in enumerate(b)]
+                slots["b1"] = qlist(b1)
+                steps = ([step("A0", "b0", "base")] if htype == "fault_reuse" else []) + \
+                        [step("A0", "b0", f"faulty call ({fk})", fault=fk), step("A0", "b0", "base after the fault"),
+                         step("A0", "b1", "other data after the fault")]
+            elif htype == "modes":
+                ms = rng.sample(P_MODES, 3) + ["none"]
+                steps = [step("A0", "b0", f"P_initial mode {m}", mode=m) for m in ms]
+            else:
+                n2 = n if htype == "worlds" else max(1, n + rng.choice([-1, 1]))
+                A2 = spd_int(rng, n2)
+                b2 = [F(rng.randint(-6, 6)) for _ in range(n2)]
+                slots["A2"], slots["b2"] = qmat(A2), qlist(b2)
+                steps = [step("A0", "b0", "world 1"), step("A2", "b2", "world 2"), step("A0", "b0", "world 1 again"),
+                         step("A2", "b2", "world 2 again")]
+            yield {"tag": f"hist_{call}_{htype}", "kind": "history", "surface": "linear", "slots": slots,
+                   "shared_p_initial": shared_flag, "steps": steps}
+
+    def _inv_base(self, rng, layout, positive=True):
+        """a small inversion world for histories (float dyadic values; every linear object carries an id)"""
+        H, W = rng.randint(6, 8), rng.randint(6, 8)
+        m, _ = gen.random_mask(rng, H, W, margin=2, kind=rng.choice(["all", "block", "cross", "bernoulli"]))
+        n_un = sum(1 for r in m for v in r if not v)
+        if n_un < 4:
+            m, _ = gen.random_mask(rng, H, W, margin=2, kind="all")
+            n_un = sum(1 for r in m for v in r if not v)
+        data = [[gen.dyadic(rng, -4, 4, 3) for _ in range(W)] for _ in range(H)]
+        noise = [[gen.pos_dyadic(rng, 2, 3, 2) for _ in range(W)] for _ in range(H)]
+        psf = [[F(rng.randint(0, 4), 8) for _ in range(3)] for _ in range(3)]
+        psf[1][1] = F(1)
+        base = {"kind": "inversion", "H": H, "W": W, "mask": "".join("1" if v else "0" for r in m for v in r),
+                "data": qmat(data), "noise": qmat(noise), "psf": qmat(psf), "sub": rng.choice([1, 2]),
+                "scale": q(rng.choice([F(1), F(1, 2), F(2)])), "ints": None, "via": rng.choice(["factory", "class"]),
+                "use_w_tilde": rng.random() < 0.4, "use_positive_only_solver": positive,
+                "positive_only_uses_p_initial": rng.choice([True, False]),
+                "force_edge_pixels_to_zeros": rng.random() < 0.6, "force_edge_image": False,
+                "image_pixels_source_zero": None}
+        base["objs"] = [self._inv_obj(rng, o, f"{o[0]}{i}", n_un) for i, o in enumerate(layout.split("+"))]
+        base["tag"] = "hist_step"
+        return base, n_un
+
+    @staticmethod
+    def _inv_obj(rng, o, oid, n_un):
+        if o == "mapper":
+            return {"type": "mapper", "id": oid, "shape": [rng.randint(3, 4), rng.randint(3, 4)],
+                    "coefficient": q(gen.pos_dyadic(rng, 1, 4, 2))}
+        k = rng.randint(1, 2)
+        return {"type": "func", "id": oid, "params": k, "regularized": rng.random() < 0.3,
+                "matrix": qmat([[gen.dyadic(rng, 0, 4, 2) for _ in range(k)] for _ in range(n_un)])}
+
+    def _hist_inversion_cases(self, rng, count):
+        types = ["flags", "data_edit", "position", "fault", "reg", "two_objs", "source_zero"]
+        ALL = ["settings", "dataset", "objs"]
+        for k in range(count):
+            htype = types[k % len(types)]
+            layout = rng.choice(["mapper", "mapper", "mapper+func", "func+mapper"]) if htype != "fault" else \
+                rng.choice(["mapper", "func", "mapper+func"])
+            base, n_un = self._inv_base(rng, layout, positive=(k < len(types) or rng.random() < 0.8))
+            if k < len(types):  # the first history of every type runs where the forced zeros / warm start act
+                base["force_edge_pixels_to_zeros"] = True
+                if htype in ("source_zero", "position") and sum(o["type"] == "mapper" for o in base["objs"]) != 1:
+                    base["objs"] = [self._inv_obj(rng, "mapper", "m0", n_un)]
+
+            def st(c, label, share=ALL, fault=None):
+                order = self.READS[:]
+                if rng.random() < 0.7:
+                    rng.shuffle(order)
+                return {"case": c, "label": label, "share": list(share), "fault": fault,
+                        "decoys": rng.sample(self.DECOYS, rng.randint(0, 6)), "order": order}
+
+            unmasked = [(i // base["W"], i % base["W"]) for i, ch in enumerate(base["mask"]) if ch == "0"]
+            if htype == "flags":
+                c1 = dict(base)
+                c1["use_w_tilde"] = not base["use_w_tilde"] if rng.random() < 0.5 else base["use_w_tilde"]
+                c1["force_edge_pixels_to_zeros"] = not base["force_edge_pixels_to_zeros"]
+                steps = [st(base, "world A"), st(c1, "same objects, settings flags edited in place"),
+                         st(base, "flags edited back")]
+            elif htype == "data_edit":
+                c1, c2 = dict(base), dict(base)
+                d1 = [r[:] for r in base["data"]]
+                for (y, x) in rng.sample(unmasked, min(3, len(unmasked))):
+                    d1[y][x] = q(gen.dyadic(rng, -6, 6, 3))
+                c1["data"] = d1
+                d2 = [r[:] for r in d1]
+                for (y, x) in unmasked:  # near-duplicate: inside np.allclose's default tolerance, far outside 1e-9
+                    v = F(d2[y][x])
+                    d2[y][x] = q(v * (1 + F(1, 2 ** rng.choice([17, 18]))) if v != 0 else F(1, 2 ** 18))
+                c2["data"] = d2
+                steps = [st(base, "world A"), st(c1, "data edited in place (dataset.data[k] = v)"),
+                         st(c2, "every data value moved by 4e-6 .. 8e-6 relative in place")]
+            elif htype == "position":
+                mapper = next((o for o in base["objs"] if o["type"] == "mapper"), None)
+                keep = [mapper] if mapper else base["objs"][:1]
+                c0, c1, c2 = dict(base), dict(base), dict(base)
+                c0["objs"] = keep
+                c1["objs"] = [self._inv_obj(rng, "func", "fx", n_un)] + keep
+                c2["objs"] = keep + [self._inv_obj(rng, "func", "fy", n_un)]
+                steps = [st(c0, "object alone"), st(c1, "same object behind a new one (parameter offset)"),
+                         st(c2, "same object in front of a new one"), st(c0, "object alone again")]
+            elif htype == "fault":
+                c1 = dict(base)
+                c1["data"] = [[q(-F(v)) for v in r] for r in base["data"]]
+                steps = ([st(base, "world A")] if rng.random() < 0.5 else []) + \
+                        [st(base, "faulty build on the same objects (a linear object with a row too few)", fault="bad_rows"),
+                         st(base, "world A after the fault"), st(c1, "negated data after the fault")]
+            elif htype == "reg":
+                c1 = dict(base)
+                c1["objs"] = [dict(o, coefficient=q(F(o["coefficient"]) * rng.choice([2, F(1, 2), 1 + F(1, 2 ** 16)])))
+                              if o["type"] == "mapper" else o for o in base["objs"]]
+                steps = [st(base, "world A"), st(c1, "regularization re-assigned on the same mapper"),
+                         st(base, "regularization assigned back")]
+            elif htype == "two_objs":
+                c1 = dict(base)
+                c1["objs"] = [self._inv_obj(rng, "mapper", "mz", n_un)] + [o for o in base["objs"] if o["type"] == "func"]
+                steps = [st(base, "world A"), st(c1, "same dataset and settings, another mesh"), st(base, "world A again")]
+            else:  # image-pixel source-zero list on the shared settings, edited between the worlds
+                n_m = sum(1 for o in base["objs"] if o["type"] == "mapper")
+                c0, c1, c2 = dict(base), dict(base), dict(base)
+                if n_m == 1 and base["use_positive_only_solver"]:
+                    for c, cnt in ((c1, 2), (c2, 1)):
+                        c.update({"force_edge_pixels_to_zeros": True, "force_edge_image": True, "zero_as": "list",
+                                  "image_pixels_source_zero": sorted(rng.sample(range(n_un), min(cnt, n_un)))})
+                else:
+                    c1["positive_only_uses_p_initial"] = not base["positive_only_uses_p_initial"]
+                steps = [st(c0, "world A"), st(c1, "source-zero list set on the shared settings"),
+                         st(c2, "another list"), st(c0, "list removed")]
+            yield {"tag": f"hist_inversion_{htype}", "kind": "history", "surface": "inversion", "steps": steps}
+
+    def _tie_cases(self, rng, quick):
+        """exact ratio ties of fix_constraint_cholesky and degenerate steps of the active-set loop (round 4, r4m2):
+        systems invariant under permutations of parameters, with the passive-set guesses that put an orbit into the
+        passive set first; classified by the exact trace `lh_trace` (ties are decidable there), compared with the
+        exact model and judged by the KKT oracle like every solver case"""
+        # (a) enumerated (seed-independent): [[a,c,e],[c,a,e],[e,e,f]] s = [p,p,r], the pair guessed passive
+        fam = []
+        for a, c, e, f, p, r in itertools.product((2, 3, 4), (-1, 0, 1), (1, 2, 3), (3, 5, 6, 9), (1, 2), (1, 2, 3, 4)):
+            if a * a - c * c <= 0 or (a + c) * f - 2 * e * e <= 0:
+                continue  # not positive definite
+            A = [[F(a), F(c), F(e)], [F(c), F(a), F(e)], [F(e), F(e), F(f)]]
+            b = [F(p), F(p), F(r)]
+            if lh_trace(A, b, [0, 1])[1]:
+                fam.append((A, b))
+        stride = max(1, len(fam) // (24 if quick else 200))
+        for t, (A, b) in enumerate(fam[::stride]):
+            perm = rng.sample(range(3), 3)  # the pair is not always (0, 1)
+            Ap = [[A[perm.index(i)][perm.index(j)] for j in range(3)] for i in range(3)]
+            bp = [b[perm.index(i)] for i in range(3)]
+            pair = [perm[0], perm[1]]
+            for p_init in ({"kind": "idx", "idx": pair}, {"kind": "idx", "idx": pair[::-1]},
+                           {"kind": "mask", "mask": [i in pair for i in range(3)]}):
+                yield {"tag": "solver_tie_enum", "kind": "solver", "A": qmat(Ap), "b": qlist(bp), "p_init": p_init}
+        # (a') cold-start ties: 3-column cores found by a closed-form pre-filter, alone and next to an unrelated
+        # block of parameters on other pixels, as a solver call and through a real Inversion
+        found = 0
+        for _ in range(8000 if quick else 80000):
+            if found >= (8 if quick else 80):
+                break
+            core = cold_tie_core(rng)
+            if core is None:
+                continue
+            found += 1
+            M, x, v = core
+            extra = rng.choice([0, 0, 1, 2])  # unrelated parameters living on pixels of their own
+            for t in range(extra):
+                M = [r + [0] for r in M] + [[0] * (3 + t) + [rng.randint(1, 3)]]
+                x = x + [rng.randint(-3, 3)]
+            n = 3 + extra
+            perm = rng.sample(range(n), n)  # the pair is not always (0, 1)
+            M = [[r[perm[j]] for j in range(n)] for r in M]
+            A, b = design_system(M, x, v)
+            u = np.linalg.solve(np_mat(A), np_vec(b))
+            for name, p_init in (("none", None), ("prod", {"kind": "mask", "mask": [bool(t > 0) for t in u]}),
+                                 ("mask_empty", {"kind": "mask", "mask": [False] * n})):
+                yield {"tag": f"solver_tie_cold_{name}", "kind": "solver", "A": qmat(A), "b": qlist(b), "p_init": p_init}
+            if len(M) <= 16:
+                yield from self._design_inversions(rng, M, x, v, ["none", "prod"], "cold")
+        # (b) random permutation-invariant designs; every guess of the passive set that contains an orbit.  A design
+        # whose tie occurs from the cold start or from the production warm start is ALSO run through a real
+        # Inversion (F + H = M'M + v*I, integer valued: one linear object with mirror-image columns, identical data
+        # and noise, no blurring) — the only two guesses an Inversion can make.
+        n_tie = n_inv = 0
+        for _ in range(700 if quick else 7000):
+            n = rng.randint(3, 6 if quick else 8)
+            M, x, v, orbits = sym_design(rng, n)
+            A, b = design_system(M, x, v)
+            u = np.linalg.solve(np_mat(A), np_vec(b))
+            orb = rng.choice(orbits)
+            others = [i for i in range(n) if i not in orb and rng.random() < 0.5]
+            modes = {"none": None, "prod": {"kind": "mask", "mask": [bool(t > 0) for t in u]},
+                     "orbit": {"kind": "idx", "idx": rng.sample(orb, len(orb))},
+                     "orbit_plus": {"kind": "mask", "mask": [i in orb or i in others for i in range(n)]},
+                     "orbits": {"kind": "idx", "idx": [i for o in orbits for i in o]},
+                     "full": {"kind": "mask", "mask": [True] * n}}
+            sa = sb = F(1)
+            if rng.random() < 0.2:  # magnitudes: the absolute tolerance eps*n is not scale-free
+                sa, sb = F(2) ** rng.randint(-6, 6), F(2) ** rng.randint(-6, 6)
+            As = [[t * sa for t in r] for r in A]
+            bs = [t * sb for t in b]
+            hits = []
+            for name, p_init in modes.items():
+                if quick and n_tie >= 200 and name not in ("none", "prod"):
+                    continue
+                ties = lh_trace(A, b, p_init_indices(p_init))[1]
+                if ties:
+                    hits.append(name)
+                    n_tie += 1
+                if ties or rng.random() < 0.03:
+                    yield {"tag": f"solver_{'tie' if ties else 'sym'}_{name}", "kind": "solver", "A": qmat(As),
+                           "b": qlist(bs), "p_init": p_init}
+            inv_modes = [name for name in hits if name in ("none", "prod")]
+            if inv_modes and len(M) <= 16 and n_inv < (4 if quick else 40):
+                n_inv += 1
+                yield from self._design_inversions(rng, M, x, v, inv_modes, "sym")
+
+    def _design_inversions(self, rng, M, x, v, modes, what):
+        """the system F + H = M'M + v*I, D = M'x through a real Inversion: one linear object whose mapping matrix is
+        M (rows scattered over the pixels of a small window, rows of zeros elsewhere), noise 1, no blurring"""
+        n = len(M[0])
+        side = 3 if len(M) <= 9 else 4
+        H, W = rng.randint(side + 2, side + 4), rng.randint(side + 2, side + 5)
+        y0, x0 = rng.randint(1, H - side - 1), rng.randint(1, W - side - 1)
+        m = [[not (y0 <= y < y0 + side and x0 <= xx < x0 + side) for xx in range(W)] for y in range(H)]
+        rows = M + [[0] * n for _ in range(side * side - len(M))]
+        xs = x + [rng.randint(-3, 3) for _ in range(side * side - len(M))]  # pixels no column sees
+        order = rng.sample(range(side * side), side * side)  # which pixel carries which row
+        data = [[F(0)] * W for _ in range(H)]
+        for t, k in enumerate(order):
+            data[y0 + t // side][x0 + t % side] = F(xs[k])
+        for name in modes:
+            yield {"tag": f"inv_tie_{what}_{name}", "kind": "inversion", "H": H, "W": W,
+                   "mask": "".join("1" if t else "0" for r in m for t in r), "data": qmat(data),
+                   "noise": qmat([[F(1)] * W for _ in range(H)]),
+                   "psf": qmat([[F(0)] * 3, [F(0), F(1), F(0)], [F(0)] * 3]),
+                   "objs": [{"type": "func", "params": n, "regularized": False,
+                             "matrix": qmat([rows[k] for k in order])}],
+                   "sub": 1, "scale": "1", "ints": None, "via": rng.choice(["factory", "class"]),
+                   "diag_value": q(v), "use_w_tilde": rng.random() < 0.5,
+                   "use_positive_only_solver": True, "positive_only_uses_p_initial": name == "prod",
+                   "force_edge_pixels_to_zeros": rng.random() < 0.5, "force_edge_image": False,
+                   "image_pixels_source_zero": None}
 
     # ------------------------------------------------------------------ model
     def model_requests(self, case, impl_obs):
+        if case.get("large") or case["kind"] == "big":
+            return []  # large cases: the vectorised oracle judges alone (DESIGN §13)
+        if case["kind"] == "history":
+            reqs, spans = [], []
+            steps_obs = impl_obs.get("steps") if isinstance(impl_obs, dict) else None
+            if steps_obs is None:
+                case["_spans"] = []
+                return []
+            for vc, so in zip(self._hist_virtual(case), steps_obs):
+                rs = []
+                if vc is not None and not so.get("unexpected") and "fault" not in so:
+                    try:
+                        rs = self.model_requests(vc, so)
+                    except Skip:
+                        rs = []
+                spans.append((len(reqs), len(reqs) + len(rs)))
+                reqs.extend(rs)
+            case["_spans"] = spans
+            return reqs
         case = self._norm(case)
         kind = case["kind"]
         if kind == "solver":
@@ -1179,6 +2353,11 @@ class C05(PropertyCheck):
 
     def model_obs(self, case, responses):
         kind = case["kind"]
+        if kind == "history":
+            out = []
+            for vc, (a, b) in zip(self._hist_virtual(case), case.get("_spans", [])):
+                out.append(self.model_obs(vc, responses[a:b]) if (vc is not None and b > a) else None)
+            return {"steps": out}
         r = responses[0]
         if kind == "solver":
             return r["ok"] if "ok" in r else {"err": r["err"]}
@@ -1208,6 +2387,21 @@ class C05(PropertyCheck):
 
     def compare(self, case, impl_obs, model_obs, cmp: Cmp):
         kind = case["kind"]
+        if kind == "history":
+            compared = 0
+            for i, (vc, so, mo) in enumerate(zip(self._hist_virtual(case), impl_obs["steps"], model_obs["steps"])):
+                if vc is None or mo is None:
+                    continue
+                try:
+                    d = self.compare(vc, so, mo, cmp)
+                except Skip:
+                    continue
+                compared += 1
+                if d:
+                    return f"$.steps[{i}] ({case['steps'][i].get('label', '')}): " + d
+            if not compared:
+                raise Skip("no step of the history has a certified model value")
+            return None
         if kind == "chol":
             if model_obs.get("err") == "irrational":
                 raise Skip("a square root met by the exact model is irrational")
@@ -1408,6 +2602,33 @@ class C05(PropertyCheck):
     # ------------------------------------------------------------------ oracle
     def oracle(self, case, obs):
         kind = case["kind"]
+        if kind == "big":
+            if "err" in obs and "msg" in obs:
+                return False, f"unexpected {obs['err']}: {obs['msg']}"
+            return self._oracle_big(case, obs)
+        if kind == "history":
+            if "steps" not in obs:
+                return False, f"the history raised {obs.get('err')}: {obs.get('msg', '')}"
+            if obs.get("slots_modified"):
+                return False, f"the caller's arrays {obs['slots_modified']} were modified in place by the calls"
+            for i, (vc, so) in enumerate(zip(self._hist_virtual(case), obs["steps"])):
+                if vc is None or "fault" in so:
+                    continue  # a deliberately faulty call: its outcome is not the property's business
+                label = case["steps"][i].get("label", "")
+                if so.get("unexpected"):
+                    return False, f"history step {i} ({label}): unexpected {so['err']}: {so.get('msg', '')}"
+                try:
+                    ok, det = self.oracle(vc, so)
+                except Skip:
+                    continue
+                if not ok:
+                    return False, f"history step {i} ({label}; expectation = a fresh object in this state): {det}"
+            return True, ""
+        for key in ("d", "s", "reconstruction"):  # NaN / inf in a returned solution (r4m2): judged, not crashed on
+            if isinstance(obs, dict) and isinstance(obs.get(key), list):
+                k = nonfinite_in(obs[key])
+                if k is not None:
+                    return False, f"the returned solution has a non-finite entry: s[{k}] = {obs[key][k]}"
         if kind == "chol":
             return self._oracle_chol(case, obs)
         if kind == "solver":
@@ -1516,6 +2737,10 @@ class C05(PropertyCheck):
     # ------------------------------------------------------------------ bookkeeping
     def nontrivial(self, case, obs):
         kind = case["kind"]
+        if kind == "big":
+            return True
+        if kind == "history":
+            return sum(1 for st in case["steps"] if not st.get("fault")) >= 2
         if "err" in obs:
             return True
         if kind == "chol":
@@ -1542,6 +2767,29 @@ class C05(PropertyCheck):
         cycles until the 10000-iteration guard raises.  Input class: degenerate optimum (decided in exact
         arithmetic on the input); only the exception outcome belongs to the finding — a non-optimal
         *returned* solution on the same input is still reported."""
+        if case.get("kind") == "history":
+            # the finding belongs to the FIRST step the oracle rejects, judged as the single call it is
+            if not (isinstance(obs, dict) and "steps" in obs) or obs.get("slots_modified"):
+                return None
+            for vc, so in zip(self._hist_virtual(case), obs["steps"]):
+                if vc is None or "fault" in so:
+                    continue
+                if so.get("unexpected"):
+                    return None
+                try:
+                    ok, _ = self.oracle(vc, so)
+                except Exception:
+                    return None
+                if not ok:
+                    return self.known_finding(vc, so)
+            return None
+        if case.get("kind") == "big":
+            if case["sub"] not in ("solver", "recon") or case.get("fn") == "posneg" or case.get("rhs") == "planted":
+                return None  # planted optimum: strict complementarity by construction, never degenerate
+            if not (isinstance(obs, dict) and obs.get("err") in ("runtime", "InversionException")):
+                return None
+            A, b, _ = big_system(case["seed"], case["n"], case["k"], case["design"], case["rhs"], case["scale"])
+            return "D4c" if degenerate_optimum_np(A, b) else None
         case = self._norm(case)
         if case.get("fn") == "posneg" or case.get("kind") == "chol":
             return None
@@ -1568,6 +2816,28 @@ class C05(PropertyCheck):
         return "D4c" if degenerate_optimum(A, b) else None
 
     def shrink(self, case):
+        if case["kind"] == "history":
+            # every step states its world absolutely, so sub-histories are histories.  Prefixes first (a failure at
+            # step i depends only on the steps before it), then one inner step dropped; never below two real calls:
+            # a single call cannot show a reuse defect by itself, it would only reflect what the PROCESS did before
+            # (module-level state left by earlier cases), and the stored replay would not reproduce.
+            steps = case["steps"]
+            real = lambda ss: sum(1 for t in ss if not t.get("fault"))
+            cands = [steps[:i] for i in range(2, len(steps))] + \
+                    [steps[:i] + steps[i + 1:] for i in range(len(steps) - 1)]
+            for ss in cands:
+                if real(ss) >= 2:
+                    c = {k: v for k, v in case.items() if not k.startswith("_")}
+                    c["steps"] = ss
+                    yield c
+            return
+        if case["kind"] == "big":  # smaller sizes of the same descriptor
+            if case["sub"] in ("solver", "recon") and case["n"] > 8:
+                for f in (2, 4):
+                    c = dict(case)
+                    c["n"], c["k"] = max(2, case["n"] * (f - 1) // f), max(1, case["k"] * (f - 1) // f)
+                    yield c
+            return
         if case["kind"] not in ("solver", "recon") or case.get("fn") == "posneg":
             return
         A, b = case["A"], case["b"]
@@ -1591,12 +2861,18 @@ class C05(PropertyCheck):
             yield c
 
     def sample_view(self, case):
-        if case["kind"] == "inversion":
-            return {k: v for k, v in case.items() if k not in ("_impl",)}
-        return dict(case)
+        # large cases are descriptors (seed + sizes): nothing big to dump; histories carry their worlds in full so
+        # that a replay can re-run them
+        return {k: v for k, v in case.items() if not k.startswith("_")}
 
     def theorems_for(self, case):
         kind = case["kind"]
+        if kind == "history":
+            return sorted({t for vc in self._hist_virtual(case) if vc is not None for t in self.theorems_for(vc)})
+        if kind == "big":
+            return {"chol": ["C05.chol_carried_factor_exact", "C05.chol_deleteindexes_exact"],
+                    "inversion": ["C05.e_mapped_data_sum", "C05.b_fnnls_main_exit_kkt"]}.get(
+                case["sub"], ["C05.b_fnnls_main_exit_kkt", "C05.a_minimiser_unique"])
         if kind == "chol":
             return {"seq": ["C05.chol_insertlast_passive_list", "C05.chol_deleteindexes_exact",
                             "C05.chol_cho_solve_factor", "C05.chol_carried_factor_exact"],
